@@ -50,7 +50,7 @@ CLAIMED = {
              "x pre-existing directory contents, with before/after snapshots.",
         note="Partial by nature: the verifier's verdict and the plug-in's file list are taken from separate real calls; OS file-system semantics "
              "are trusted.",
-        technique="Lean 4 proof (gating logic over an abstract FS) + snapshot-based correspondence check",
+        technique="Lean 4 proof (gating logic over an abstract FS; Result/catch glue as Except: a rejection travels unchanged) + snapshot-based correspondence check + Result pipelines on the real classes",
         ref="DESIGN.md section 8, C10"),
     "C17": dict(
         text="Partial. Lean theorems: the {path: contents} map and the resulting directory do not depend on the order in which a generator emits its "
@@ -184,7 +184,8 @@ CLAIMED = {
              "(bus padded, id, number of canonical bytes, bytes padded); decode(encode) = (name, value) for distinct names and (id, bus) keys; "
              "unmatched (id, bus) -> unknown; static = run-time for decoding. Tie: compiled static and run-time CAN wrappers (ASan+UBSan) vs the "
              "Lean frame model on encodes, decodes of matching frames and of frames with altered id / bus / bus prefix.",
-        note="bindings without a bus are outside the property; altered frames that match another binding are decoded only when their data is an encoding of a value of that binding (enumerators, finite floats). Recorded finding enumerator-beyond-i32 (see C12/C13) shown on its witness.",
+        note="Since fixes 6533a8d / 3cf67a4 the model cuts bus names to the four characters of the tag (Binding.tag) and identifiers are unbounded; "
+             "the old comparison is kept as oldDecodeFrame with C18_old_long_bus_counterexample. Bindings without a bus are outside the property; altered frames that match another binding are decoded only when their data is an encoding of a value of that binding (enumerators, finite floats). Recorded finding enumerator-beyond-i32 (see C12/C13) shown on its witness.",
         technique="Lean 4 proof (frame model: lookup + padding lemmas + codec round trip) + compiled-code differential check",
         ref="DESIGN.md section 8, C18"),
     "C12": dict(
